@@ -1,4 +1,4 @@
-(* GENERATED from Tree/InvProofsFiles.v by work/c03gen/gen.py: the same proof over NoOrphanP (no RootsOnly), see Tree/InvEBase.v *)
+(* GENERATED from Tree/InvProofsFiles.v by tools/c03_gen_invE.py: the same proof over NoOrphanP (no RootsOnly), see Tree/InvEBase.v *)
 (* Tree/InvProofsFiles.v — C03 proofs: new_model, create_file, add_to_file, remove_from_file, remove_file. *)
 From Coq Require Import PeanoNat Arith.
 From AV Require Import Base.Bytes Base.Outcome Hash.HashModel Tree.Heap Tree.Ops Tree.Script Tree.Inv
